@@ -193,7 +193,15 @@ IPC_WRAPS = ["sem_open", "sem_close", "sem_unlink", "sem_wait", "sem_trywait", "
 IPC_SOURCES = ["engine/mcrt_ipc.c", "engine/ipcnames.c"]
 
 
-def build_mc_exe(name, sources, atomic="c11", rwlock="posix", extra_plain=(), extra_wraps=(), exclude=(), cflags=(), ipc=False):
+KSIM_WRAPS = ["socket", "fcntl", "setsockopt", "getsockopt", "getsockname", "getpeername", "bind", "listen", "connect", "accept", "send", "sendto", "recv", "recvfrom",
+              "shutdown", "poll", "close"]
+KSIM_SOURCES = ["engine/ksim.c", "engine/mcrt_ksim.c"]
+
+
+def build_mc_exe(name, sources, atomic="c11", rwlock="posix", extra_plain=(), extra_wraps=(), exclude=(), cflags=(), ipc=False, ksim=False):
+    if ksim:
+        extra_plain = list(extra_plain) + KSIM_SOURCES
+        extra_wraps = list(extra_wraps) + KSIM_WRAPS
     if ipc:
         extra_plain = list(extra_plain) + IPC_SOURCES
         extra_wraps = list(extra_wraps) + IPC_WRAPS
